@@ -296,3 +296,33 @@ def r5(cx):
     if not (src is not None and Q.callee_is(src, ['core::str::<impl str>::as_bytes']) and
             Q.operand_name(body, du, src['a'][0]) == 'content'):
         cx.violation(body.root, 'partial-content', 'write_all is not given content.as_bytes()', loc=body.loc(wr[0][1]))
+
+
+@RS.rule('C14.R2c', 'K-ORDER', 'pipeline child: once a pipe end sits on a standard descriptor, only the descriptor just moved is closed '
+         '(closing any other number afterwards can close the freshly connected stdin/stdout)')
+def r2c(cx):
+    import json as _json
+    F = cx.F
+    body = F.body('yash_semantics::command::pipeline::PipeSet::move_to_stdin_stdout')
+    cx.fn(body.fn)
+    du = Q.DefUse(body)
+    closes = Q.find_calls(body, CLOSE)
+    dup2s = Q.find_calls(body, ['*::Dup::dup2'])
+    cx.require(closes and dup2s, 'close / dup2 calls not found in move_to_stdin_stdout')
+
+    def key(op):
+        o = du.origin(op)
+        if o['k'] in ('place', 'ref'):
+            return _json.dumps(o['pl'], sort_keys=True)
+        return Q.operand_name(body, du, op) or _json.dumps(op, sort_keys=True)
+
+    for cb, ct in closes:
+        before = [(db, dt) for db, dt in dup2s if dt['to'] is not None and cb in body.reachable(dt['to'])]
+        moved = {key(dt['a'][1]) for db, dt in before}
+        nm = Q.arg_names(body, du, ct)[1]
+        cx.site('%s: close(%s) at %s runs after %d dup2 call(s)' % (body.fn, nm, body.loc(ct), len(before)))
+        if before and key(ct['a'][1]) not in moved:
+            cx.violation(body.root, 'close-after-install:%s' % nm, 'descriptor `%s` is closed after a pipe end has already been moved onto a '
+                         'standard descriptor, and it is not the descriptor that was moved: if it happens to carry that standard '
+                         "number (pipe ends get the lowest free numbers, e.g. 0 when stdin was closed), the command's freshly "
+                         'connected input/output is closed and bytes are lost' % nm, loc=body.loc(ct))
